@@ -11,5 +11,7 @@ CONFIG = dict(
     rule=("Case = scenario + order + cache config. Non-trivial = a block whose Atropos sees at least one forker while another validator "
           "that forked somewhere in the DAG is not (yet) visible as forker from it; distinct by scenario hash."),
     assumptions=["the Atropos is taken from the implementation; only the cheater list is judged here (Atropos choice is C10's subject)"],
-    units=[dict(test="TestC03Cheaters", quick=3000, thorough=144000, shards=16)],
+    units=[dict(test="TestC03Cheaters", quick=3000, thorough=144000, shards=16),
+           # the rare large shapes: a forker with 66-70 same-seq events of which only the last are built upon, 65-70 validators, huge blocks
+           dict(test="TestC03Shapes", quick=16, thorough=640, shards=16)],
 )
